@@ -32,6 +32,10 @@ def jobs(tier):
     for qn in ["11", "65537", "L", "q1024", "q2048", "q3072"]:
         js.append(("job_shift_bijection", dict(_name="x -> x + c mod q is a bijection (q=%s)" % qn, qn=qn)))
     js.append(("job_toy_ground", dict(_name="toy groups: every (password, scalar) enumerated on the real code (ground)")))
+    # the scalar x itself must be uniform on [0,q): the sampling obligations of C11 are part of this property's mechanism
+    for g in ("I1024", "I2048", "I3072", "toy257", "toy1019"):
+        js.append(("job_group_scalar", dict(_name="uniform scalar: IntegerGroup.random_scalar %s, <=3 draws" % g, gname=g, draws=3)))
+    js.append(("job_ed_scalar", dict(_name="uniform scalar: ed25519 random_scalar")))
     from checks import realtier
     js += realtier.jobs_for("C04", tier)
     return js
@@ -169,3 +173,5 @@ def oracle_hiding(cls, pw, ground=False):
 ORACLES = dict(hiding=oracle_hiding)
 from checks.realtier import rt_conform, ORACLES as _RT      # noqa: E402
 ORACLES.update(_RT)
+from checks.c11 import job_group_scalar, job_ed_scalar, ORACLES as _O11      # noqa: E402
+ORACLES.update({k: v for k, v in _O11.items() if k not in ORACLES})
